@@ -71,3 +71,9 @@ package optimization
 //@ define syncerOK(s *Syncer) = s.logger != nil && s.dcs != nil
 //@ typeinv *optimization.Controller controllerOK init app/optimization.NewController
 //@ typeinv *optimization.Syncer syncerOK init app/optimization.NewSyncer
+//@ func app/optimization.NewSyncer
+//@   requires c20 [safety]: logger != nil && Dcs != nil
+//@   ensures C20.nonnil [C20]: result != nil && syncerOK(result)
+//@ func app/optimization.NewController
+//@   requires c20 [safety]: logger != nil && dcs != nil
+//@   ensures C20.nonnil [C20]: result != nil && controllerOK(result)
